@@ -23,6 +23,7 @@ Byte strings are hex (`-` = empty). Requests (server must be "up" for the operat
 * `steps.part <tags> <src>`                → the step list of that save, e.g. `rename:tindex.dat:tindex.bak truncate:tindex.dat append:tindex.dat`
 * `steps.mkpipe <n> <t> <f>` · `cutmkpipe <n> <t> <f> <k> <len>` · `steps.rmpipe <n>` · `cutrmpipe <n> <k> <len>`
                                            step list of / crash inside the metadata update of CREATE / DELETE PIPE (`opSteps`)
+* `enabled.part <tags>` · `enabled.mkpipe <n> <t> <f>`   → `1`/`0`: the guard (`enabled`) of creating that partition / pipe now
 * `inv`                                    → `1` when the running server's memory is consistent with its disk (`invB`, the
                                            decidable form of the proved invariant `Persist.Inv`), `0` otherwise, `down`
 * `sanitize <hex>`                         → hex of `sanitize` (a Go string after `json.Marshal` + `json.Unmarshal`)
@@ -159,6 +160,8 @@ def dstep (d : DS) (toks : List String) : DS × String :=
     if !d.up then (d, "down") else
     let steps := opSteps K s (.deletePipe (unhex n))
     (crashed d (diskAt s.disk.files steps (mkCut steps k.toNat! cls)) false, "ok")
+  | ["enabled.part", tg] => (d, b2s (enabled (fun _ => true) s (.newPartition (unhex tg) [])))
+  | ["enabled.mkpipe", n, t, f] => (d, b2s (enabled (fun _ => true) s (.createPipe ⟨unhex n, unhex t, unhex f⟩)))
   | ["inv"] => if d.up then (d, b2s (invB K (fun _ => true) s)) else (d, "down")
   | ["sanitize", x] => (d, hex (sanitize (unhex x)))
   | ["cutstop", k, cls] =>
